@@ -8,16 +8,36 @@ from kirin.passes.callgraph import CallGraphPass
 from kirin.rewrite.abc import RewriteResult, RewriteRule
 
 from bloqade.shuttle.arch import ArchSpec
-from bloqade.shuttle.dialects import path, spec
+from bloqade.shuttle.dialects import action, path, spec
 
 
 @dataclass
 class InjectSpecRule(RewriteRule):
     arch_spec: ArchSpec
+    specialised: dict[ir.Method, ir.Method] = field(default_factory=dict)
+    """copies of the subroutines that are used as first-class values (e.g. the
+    function argument of `ilist.map`), specialised for `arch_spec`."""
+
+    def specialise_method(self, method: ir.Method) -> ir.Method:
+        # the call graph only follows `func.invoke`, a subroutine passed around as
+        # a value has to be copied and specialised here. The original stays untouched.
+        if method not in self.specialised:
+            self.specialised[method] = new_method = method.similar()
+            CallGraphPass(method.dialects, rewrite.Walk(self)).unsafe_run(new_method)
+
+        return self.specialised[method]
 
     def rewrite_Statement(self, node: Statement) -> RewriteResult:
         if isinstance(node, path.Gen) and node.arch_spec is None:
             node.arch_spec = self.arch_spec
+            return RewriteResult(has_done_something=True)
+        elif (
+            isinstance(node, Constant)
+            and isinstance(method := node.value.unwrap(), ir.Method)
+            and not isinstance(method.code, action.TweezerFunction)
+            and method not in self.specialised.values()
+        ):
+            node.replace_by(Constant(self.specialise_method(method)))
             return RewriteResult(has_done_something=True)
         elif (
             isinstance(node, spec.GetStaticTrap)
